@@ -82,6 +82,28 @@ def checksum_is_plain_sum_2_19(program):
             return False, found
     return True, found
 
+def fresh_decoder(program):
+    """the decoder object as NMEA2000Decoder() with default arguments leaves it (constructor interpreted); the empty object when the constructor
+    is not interpretable"""
+    cls = program.cls('decoder', 'NMEA2000Decoder')
+    methods = {n.name: n for n in cls.body if isinstance(n, (ast.FunctionDef, ast.AsyncFunctionDef))}
+    dec = A.AObj()
+    try:
+        dec.attrs.update(A.class_constants(None, cls))
+        def hook(it, call, env):
+            name = ast.unparse(call.func)
+            if name in ('datetime.now', 'datetime.utcnow', 'time.time', 'time.monotonic'):
+                return A.AInt(5)
+            if name == 'open' or name.startswith('os.'):
+                return A.AOpaque(name)
+            return NotImplemented
+        mod = program.mod('decoder')
+        it = A.Interp(hook=hook, skip=is_logger, methods=methods, module=A.ModuleEnv(mod.tree), classes={c: mod.classes[c] for c in mod.classes if c != 'NMEA2000Decoder'})
+        it.call_function(methods['__init__'], [dec])
+        return dec
+    except (A.Unknown, A.RaiseSignal, A.PyError, KeyError, AttributeError, TypeError, RecursionError):
+        return A.AObj()
+
 def usb_reader_semantics(program, n=8, head=(0xaa, 0x55), length=20):
     """NMEA2000Decoder.decode_usb interpreted on a 20-byte packet whose marker and length byte are concrete and whose other bytes are symbols,
     with utils.calculate_canbus_checksum interpreted too (linear-sum domain).  The comparison of the computed with the stored checksum cannot be
@@ -120,10 +142,12 @@ def usb_reader_semantics(program, n=8, head=(0xaa, 0x55), length=20):
                 return A.AOpaque(name)
             return NotImplemented
         it = A.Interp(hook=hook, skip=is_logger, functions=utils, cmp_oracle=oracle, module=A.ModuleEnv(program.mod('decoder').tree), methods=dec_methods)
-        try:
-            it.call_function(fn, [A.AObj(), pk])
-        except A.RaiseSignal:
-            pass
+        dec = fresh_decoder(program)
+        for _ in range(2):          # the same packet twice on one decoder object: what the first one leaves behind must not let the second one through
+            try:
+                it.call_function(fn, [dec, pk])
+            except A.RaiseSignal:
+                pass
         out['decoded_when_' + mode] = bool(reached)
         out['asked'] = asked or out['asked']
         out['asked_' + mode] = len(asked)
